@@ -27,6 +27,11 @@ CHECKS = {
          "BFS over chains of <= 2 blocks x <= 2 transactions (quick), <= 3 x <= 3 (thorough) over up to 199 operations (every transaction kind x amounts {0,1,unit,unit+1,balance,balance+1,overflow-sized} x fees {min, min+gasprice, non-multiple}), de-duplicated on (all balances, nonces, hidden ledger), both storage modes, ~10.9k / 127k blocks committed. After every block, per token: sum over ALL accounts + unspent hidden outputs changes only by explicit issues and self-destruct-to-self; fee debited == fee collector credit; failed receipts move only fees; A->U and U->A move exactly the declared amounts; every declared hidden output is found by its recipient's scan. Rejection side: 10 hostile constructions and 14-25 tampered variants per valid confidential transaction (txkit.Tampers + foreign range proof, OutPk count mismatch, overflow-sized fee/amounts, re-committed amounts, swapped pseudo outs/MLSAGs/ring signatures) must be rejected by Mempool.AddTx AND by a replica's CheckBlock.",
          "Range proofs are an ideal functionality of the crypto stand-in (commitment equation, MLSAG, ring signatures, ECDH are real); no system WASM contracts; four recorded known findings (ring-of-one minting, CreateAccount drops tokens, credit after self-destruct in the same block, confidential payment to a contract created in the same block).",
          "5/C06"),
+ "C07": ("model_checking",
+         "explicit-state BFS over chain histories (submissions, blocks from the pool, arbitrary proposer-chosen transaction lists incl. forged headers, restarts) on the real node core vs. a plain-Go model of consumed inputs; preemption-bounded exhaustive exploration (schedx) of AddTx racing AddTx and CommitBlock; crash-state enumeration of the commit of spending blocks followed by re-offering every consumed input",
+         "E1: BFS over histories of AddTx(t) / BlockFromMempool / Restart / Block[t1..tk] on the node under test plus a cold validator replica (9 transactions to depth 2 and 5 to depth 3 quick; 16 transactions incl. ring size 3, confidential->account, token, creation, multi-signature to depth 2, blocks <= 3 txs, 8 txs to depth 4 thorough; the 5-transaction alphabet closes at depth 8 = its whole reachable state space), both storage modes; after every history the committed chain read back from the node's own block store must not carry a key image twice nor execute an account transaction at a nonce other than the sender's next, Reap() must not offer a consumed input or the same key image twice and must be executable by PreRunBlock, and warm-cache and cold validators must agree. E2: every interleaving with <= 2 (core scenarios <= 3) preemptions of two AddTx of conflicting spends and one real CommitBlock over the instrumented mempool/app (4 / 16 scenarios, 16k / 180k schedules), oracle on Reap() at quiescence and after sequential re-submission. E3: every prefix of the write log of the commit of a spending block x every distinct undo-log content restarted through the node start-up recipe (37/148 prefixes, 119/552 restarts), every consumed input offered again through the mempool and in a block. State-key adequacy shadow expansions and non-vacuity guards (refused re-use offers, accepted blocks, pool admissions) are part of the run.",
+         "Crypto stand-in (key images are the real values; Bulletproofs ideal); minichain node core (no consensus rounds, p2p, system contracts); native coin on the confidential side; one sender; E2 sees sync/atomic operations of the instrumented files only (no -race pass); E3 is the process-crash tier (prefixes of the recorded write log).",
+         "5/C07"),
  "C08": ("exploration",
          "bounded-exhaustive input enumeration: every single and pairwise field mutation x signature (r,s,v) boundary product x chain parameter x sender-cache state for every account-based transaction kind; exhaustive wallet x sub-address recognition matrix, key-set spend product and field-binding mutations for confidential transactions (real curve arithmetic)",
          "Account side: for Transaction (transfer/creation), TokenTransaction, UTXOTransaction with account input (coin/token), confidential inputs with account-paid fee, ContractUpgradeTx and MultiSignAccountTx: sign once with a fixed key, then every field mutation from {+1, zero, other, append byte, structural} singly and in pairs, every (r,s,v) from a 7x7x14 boundary set (0,1,N-1,N,N+1,valid,N-s; v incl. 27/28, 35+2c.., wrap values), verifying chain parameter in {c,c+1,0}, cache states {cold, warmed before mutation, warmed through the real mempool/StoreFrom twin}; oracle: recovered sender differs from the original or an error; high-s/out-of-range refused; transaction hash exact and injective over signatures. Confidential side: 3 wallets x 3 sub-addresses + outsider: outputs recognised/decoded by exactly the destination; 27 key sets x R-key x key-image x ring size {1,3} spends through CheckBasic: only the owner's key set is accepted; every single (thorough: pairwise) mutation of inputs, outputs, token, R-keys, fee, extra, account signature changes the ring-signature message and invalidates the authorisation. 257k cases quick / 5.4M thorough, exhaustive within the bounds.",
